@@ -10,6 +10,12 @@ package natsort
 //@ func isdigit
 //@   inline
 
+//@ # Strings sorts in place through sort.Sort (outside the verified subset): assumed to change only the
+//@ # elements of a.
+//@ func Strings
+//@   trusted
+//@   assigns elems(a)
+
 //@ func Less
 //@   props C20
 //@   overflow
